@@ -55,6 +55,9 @@ type Stats struct {
 	Crashes          int
 	Leaked           bool
 	PorcupineUnknown int
+	// reach: how often each (request kind, store call) site was stepped through, and with which fault
+	Sites      map[string]int
+	SiteFaults map[string]int
 }
 
 type RunResult struct {
@@ -524,6 +527,25 @@ func runInBubble(t *testing.T, sc *Scenario, plan *Plan, ex *ExploreCfg, res *Ru
 		}
 	}
 	res.Stats.Nontrivial = w.probes["lock_wait"] > 0 || len(w.firedAt) > 0 || switched
+	res.Stats.Sites, res.Stats.SiteFaults = map[string]int{}, map[string]int{}
+	for _, st := range w.sites {
+		kind := st[0]
+		if op := r.started[opIDOf(st[0])]; op != nil {
+			kind = op.Kind
+			if op.Kind == KRaw && op.Raw != nil {
+				kind = "raw"
+			}
+		} else if i := strings.IndexAny(kind, ":#"); i > 0 {
+			kind = kind[:i] // pipeline:…, exporter:…, state:…, client:…
+		} else if strings.HasPrefix(kind, "e") {
+			kind = "bulk-element"
+		}
+		site := kind + "@" + st[1]
+		res.Stats.Sites[site]++
+		if st[2] != "" {
+			res.Stats.SiteFaults[site+"!"+st[2]]++
+		}
+	}
 	w.mu.Unlock()
 
 	w.Shutdown()
